@@ -25,6 +25,7 @@ func (fv *FuncVC) newEnv(st, old *State) *Env {
 	e := &Env{fv: fv, names: map[string]Val{}, st: st, old: old}
 	for k, v := range fv.params {
 		e.names[k] = v
+		e.names[k+"0"] = v // Gobra-style entry value; loop-carried variables may shadow the plain name
 	}
 	return e
 }
@@ -300,6 +301,20 @@ func (e *Env) ident(name string) Term {
 				}
 			}
 		}
+	}
+	if pk := e.pkg(); pk != nil {
+		for _, sp := range fv.P.SSA.AllPackages() {
+			if sp.Pkg == pk {
+				if g, ok := sp.Members[name].(*ssa.Global); ok {
+					t := fv.globalTerm(e.st, g)
+					t.Go = g.Type().(*types.Pointer).Elem()
+					return t
+				}
+			}
+		}
+	}
+	if v, ok := ghostConsts[name]; ok {
+		return Term{S: fmt.Sprint(v), Sort: SMath}
 	}
 	if sf, ok := fv.P.CS.Specs[name]; ok && len(sf.Params) == 0 {
 		return e.specCall(sf, nil)
@@ -593,17 +608,11 @@ func (e *Env) callExpr(x ECall) Term {
 		// prefix(a, b): b is a prefix of a
 		argn(2)
 		a, b := e.argBytes(x.Args[0]), e.argBytes(x.Args[1])
-		fv.nfresh++
-		k := fmt.Sprintf("kp%d", fv.nfresh)
-		return Term{S: smtAnd(fv.ile(fv.lenOf(b), fv.lenOf(a)),
-			fmt.Sprintf("(forall ((%s %s)) (=> (and %s %s) (= %s %s)))", k, idxSort(fv.Mode), fv.ile(fv.ilit(0), k), fv.ilt(k, fv.lenOf(b)), fv.elemAt(a, k), fv.elemAt(b, k))), Sort: SBool}
+		return Term{S: smtAnd(fv.ile(fv.lenOf(b), fv.lenOf(a)), fv.forallCopy(a, fv.ilit(0), b, fv.ilit(0), fv.lenOf(b))), Sort: SBool}
 	case "eqbytes":
 		argn(2)
 		a, b := e.argBytes(x.Args[0]), e.argBytes(x.Args[1])
-		fv.nfresh++
-		k := fmt.Sprintf("kp%d", fv.nfresh)
-		return Term{S: smtAnd(app("=", fv.lenOf(b), fv.lenOf(a)),
-			fmt.Sprintf("(forall ((%s %s)) (=> (and %s %s) (= %s %s)))", k, idxSort(fv.Mode), fv.ile(fv.ilit(0), k), fv.ilt(k, fv.lenOf(b)), fv.elemAt(a, k), fv.elemAt(b, k))), Sort: SBool}
+		return Term{S: smtAnd(app("=", fv.lenOf(b), fv.lenOf(a)), fv.forallCopy(a, fv.ilit(0), b, fv.ilit(0), fv.lenOf(b))), Sort: SBool}
 	case "same":
 		// same(a,b): identical slice value (content, length, storage)
 		argn(2)
@@ -687,6 +696,55 @@ func (e *Env) callExpr(x ECall) Term {
 		argn(1)
 		t := e.argBytes(x.Args[0])
 		return Term{S: app("Bytes_g2", t.S), Sort: SMath}
+	case "lex":
+		argn(1)
+		t := e.argBytes(x.Args[0])
+		return Term{S: app("Bytes_g3", t.S), Sort: SMath}
+	case "aftervalue":
+		argn(1)
+		t := e.coerce(e.eval(x.Args[0]), SMath)
+		if fv.cborBuild() {
+			return Term{S: fv.cborAfterValue(t.S), Sort: SMath}
+		}
+		return Term{S: app("aftervalue", t.S), Sort: SMath}
+	case "valuepos":
+		argn(1)
+		t := e.coerce(e.eval(x.Args[0]), SMath)
+		if fv.cborBuild() {
+			return Term{S: smtNot(app("=", fv.cborAfterValue(t.S), "0")), Sort: SBool}
+		}
+		return Term{S: app("valuepos", t.S), Sort: SBool}
+	case "closemode":
+		argn(1)
+		t := e.coerce(e.eval(x.Args[0]), SMath)
+		return Term{S: app("closemode", t.S), Sort: SMath}
+	case "popstk":
+		argn(1)
+		t := e.coerce(e.eval(x.Args[0]), SMath)
+		return Term{S: fmt.Sprintf("(div %s 4)", t.S), Sort: SMath}
+	case "openstr", "afterstr":
+		argn(1)
+		t := e.coerce(e.eval(x.Args[0]), SMath)
+		return Term{S: app(x.Fn, t.S), Sort: SMath}
+	case "pushstk":
+		// pushstk(m, s): the stack after opening a container in mode m
+		argn(2)
+		m := e.coerce(e.eval(x.Args[0]), SMath)
+		st := e.coerce(e.eval(x.Args[1]), SMath)
+		return Term{S: app("jstk", m.S, st.S, "0", "91"), Sort: SMath}
+	case "plainbyte":
+		argn(1)
+		t := e.coerce(e.eval(x.Args[0]), SByte)
+		return Term{S: app("plainbyte", t.S), Sort: SBool}
+	case "cleanrun", "validrune":
+		argn(3)
+		t := e.argBytes(x.Args[0])
+		a := e.coerce(e.eval(x.Args[1]), SInt)
+		b := e.coerce(e.eval(x.Args[2]), SInt)
+		if x.Fn == "validrune" {
+			return Term{S: app("validrune", fv.arrOf(t), fv.iadd(fv.offOf(t), a.S), b.S), Sort: SBool}
+		}
+		return Term{S: app("cleanrun", fv.arrOf(t), fv.iadd(fv.offOf(t), a.S), fv.iadd(fv.offOf(t), b.S)), Sort: SBool}
 	case "int", "int8", "int16", "int32", "int64", "uint", "uint8", "uint16", "uint32", "uint64", "byte":
 		argn(1)
 		t := e.eval(x.Args[0])
